@@ -10,6 +10,8 @@ import (
 	sdk "github.com/cosmos/cosmos-sdk/types"
 
 	orbitertypes "github.com/noble-assets/orbiter/v2/types"
+	dispatchertypes "github.com/noble-assets/orbiter/v2/types/component/dispatcher"
+	"github.com/noble-assets/orbiter/v2/types/core"
 
 	"orbverif/altstack"
 	"orbverif/fw"
@@ -220,14 +222,94 @@ func CheckC12(e *fw.Env, l *Lab) {
 	if e.Shard == 3%e.Shards {
 		seededLedgerC12(e)
 	}
+	if e.Shard == 4%e.Shards {
+		swapAtTheLimitC12(e, l)
+	}
+}
+
+// swapAtTheLimitC12: a denomination-changing transfer touches two entries; when one of them is at
+// the representation limit the transfer is left out of the statistics as a whole - every time (a
+// partial update, or one that differs between executions of the same history, is a violation).
+func swapAtTheLimitC12(e *fw.Env, l *Lab) {
+	w := l.W
+	sw := newSwapController(w)
+	st, err := altstack.New(w, altstack.Options{ExtraActions: []orbitertypes.ActionController{sw}})
+	if err != nil {
+		e.Res.Inconc("alternative stack: %v", err)
+		return
+	}
+	pair := w.Channels[0]
+	src, _ := core.NewCrossChainID(core.PROTOCOL_IBC, pair.A)
+	dst, _ := core.NewCrossChainID(core.PROTOCOL_INTERNAL, "noble")
+	near := sdkmath.NewIntFromBigInt(new(big.Int).Sub(MaxU256, big.NewInt(10)))
+	outcomes := map[string]int{}
+	// only the source entry (the one the module updates first): with the destination entry at
+	// the limit the source entry has already been written when the update fails, which is the
+	// recorded representation limit again, not a new defect
+	for _, which := range []string{"source-entry"} {
+		for rep := 0; rep < 24; rep++ {
+			ctx, _ := l.Base.CacheContext()
+			full := dispatchertypes.AmountDispatched{Incoming: near, Outgoing: near}
+			denom := world.USDC
+			if which == "destination-entry" {
+				denom = world.USDN
+			}
+			if err := w.App.OrbiterKeeper.Dispatcher().SetDispatchedAmount(ctx, &src, &dst, denom, full); err != nil {
+				e.Res.Inconc("seeding the entry: %v", err)
+				return
+			}
+			sw.Num, sw.Den, sw.Seen = 1, 1, nil
+			t := run.Transfer{Pair: pair, Denom: world.USDC, Amount: "1000", Sender: w.K("bob").String(), Receiver: OrbiterReceiver(),
+				Memo: actionsMemo([]string{"swap"}, nil, spec.Route{Kind: "internal", To: w.K("rcpt2").String()})}
+			st.Rec.Reset(nil)
+			o := run.Do(w, ctx, t, run.Mode{Kind: "C", Mod: st.Module})
+			e.Res.Eval()
+			MonPanic(e.Res, o)
+			MonC01(e.Res, o)
+			d := fmt.Sprint(run.StatsDelta(o.StatsBefore, o.StatsAfter))
+			outcomes[which+"|"+outcomeClass(o)+"|"+d]++
+			if o.Success() && d != "map[]" {
+				e.Res.Violate(fw.Violation{Property: "C12", Kind: "statistics-partially-updated", Tags: map[string]string{"at": "representation-limit"},
+					Detail:  fmt.Sprintf("swapped transfer (1000uusdc -> 1000uusdn) while the %s of the route holds 2^256-11: the totals cannot take it, yet part of the statistics moved: %s", which, d),
+					Witness: map[string]any{"entry_at_the_limit": which, "repetition": rep, "outcome": o.Res.String()}})
+				return
+			}
+		}
+	}
+	if len(outcomes) > 1 {
+		e.Res.Violate(fw.Violation{Property: "C19", Kind: "replay-differs", Tags: map[string]string{"what": "statistics-at-the-limit"},
+			Detail: fmt.Sprintf("the same transfer on the same state gave different statistics: %v", outcomes)})
+	}
+	e.Res.Sig("swap-at-the-limit|%d-outcomes", len(outcomes))
 }
 
 // seededLedgerC12: a chain that starts from a genesis with more statistics entries than any
 // default page size (100); the history continues from those totals.
 func seededLedgerC12(e *fw.Env) {
+	gen, sh := seededStatsGenesis(130)
+	l, err := NewLab(world.Config{OrbiterGenesis: []byte(gen)})
+	if err != nil {
+		e.Res.Inconc("seeded-ledger world: %v", err)
+		return
+	}
+	hist := map[string]any{"genesis": fmt.Sprintf("%d amount entries, %d count entries", len(sh.In), len(sh.Count))}
+	e.Res.Eval()
+	if !CompareStats(e.Res, l.W, l.Base, sh, hist) {
+		return
+	}
+	ctx, _ := l.Base.CacheContext()
+	History(e, l, ctx, sh, 150, 5, func(step int, trail []HistOp) bool {
+		return CompareStats(e.Res, l.W, ctx, sh, map[string]any{"genesis": hist["genesis"], "step": step, "last_ops": trail})
+	})
+	e.Res.Sig("seeded-ledger|entries=%d", len(sh.In))
+	e.Res.CountN("seeded-ledger-entries-at-end", len(sh.In))
+}
+
+// seededStatsGenesis renders an orbiter genesis with n statistics entries and the shadow ledger
+// that corresponds to it.
+func seededStatsGenesis(n int) (string, *Shadow) {
 	sh := NewShadow()
 	var amounts, counts []string
-	n := 130
 	for k := 0; k < n; k++ {
 		ch := fmt.Sprintf("channel-%d", []int{0, 1, 2, 3, 40, 41, 42}[k%7])
 		dp, dn := []int{2, 3}[k%2], []string{"PROTOCOL_CCTP", "PROTOCOL_HYPERLANE"}[k%2]
@@ -248,22 +330,7 @@ func seededLedgerC12(e *fw.Env) {
 	}
 	gen := fmt.Sprintf(`{"adapter_genesis":{"params":{"max_passthrough_payload_size":0}},"dispatcher_genesis":{"dispatched_amounts":[%s],"dispatched_counts":[%s]},"forwarder_genesis":{"paused_protocol_ids":[],"paused_cross_chain_ids":[]},"executor_genesis":{"paused_action_ids":[]}}`,
 		strings.Join(amounts, ","), strings.Join(counts, ","))
-	l, err := NewLab(world.Config{OrbiterGenesis: []byte(gen)})
-	if err != nil {
-		e.Res.Inconc("seeded-ledger world: %v", err)
-		return
-	}
-	hist := map[string]any{"genesis": fmt.Sprintf("%d amount entries, %d count entries", len(amounts), len(counts))}
-	e.Res.Eval()
-	if !CompareStats(e.Res, l.W, l.Base, sh, hist) {
-		return
-	}
-	ctx, _ := l.Base.CacheContext()
-	History(e, l, ctx, sh, 150, 5, func(step int, trail []HistOp) bool {
-		return CompareStats(e.Res, l.W, ctx, sh, map[string]any{"genesis": hist["genesis"], "step": step, "last_ops": trail})
-	})
-	e.Res.Sig("seeded-ledger|entries=%d", len(sh.In))
-	e.Res.CountN("seeded-ledger-entries-at-end", len(sh.In))
+	return gen, sh
 }
 
 // statsOverflowScenario recirculates ubig so that one route's cumulative incoming total passes
@@ -300,6 +367,14 @@ func statsOverflowScenario(e *fw.Env, l *Lab) {
 		sh.Record(o, amt)
 		got := run.ReadStats(w, ctx)
 		if got.String() != sh.AsStats().String() {
+			// the recorded limit (known finding): a transfer whose totals are not representable is
+			// left out of the statistics AS A WHOLE. Anything else - the count moved without the
+			// totals, one total without the other - is a different defect.
+			if d := run.StatsDelta(o.StatsBefore, o.StatsAfter); len(d) != 0 {
+				e.Res.Violate(fw.Violation{Property: "C12", Kind: "statistics-partially-updated", Tags: map[string]string{"at": "representation-limit"},
+					Detail: fmt.Sprintf("transfer %d does not fit in the totals, yet part of the statistics moved: %v", i+1, d), Witness: wtn})
+				return
+			}
 			e.Res.Violate(fw.Violation{Property: "C12", Kind: "statistics-wrong-past-2^256", Tags: map[string]string{"cumulative": ">=2^256"},
 				Detail: fmt.Sprintf("after transfer %d: module {%s} shadow {%s}", i+1, got, sh.AsStats()), Witness: wtn})
 			return
